@@ -57,19 +57,7 @@ func runC07(r *R) {
 	}
 	faultAt := int64(-1)
 	if f.Biased(4, 3, 4) == 1 && len(file) > 0 {
-		faultAt = int64(f.Draw(len(file)))
-		if f.Draw(2) == 0 {
-			// half of the faults land one to three bytes into a line (inside a size field, a header name, a method)
-			var starts []int
-			for i, c := range file {
-				if c == '\n' && i+1 < len(file) {
-					starts = append(starts, i+1)
-				}
-			}
-			if len(starts) > 0 {
-				faultAt = int64(min(starts[f.Draw(len(starts))]+1+f.Draw(3), len(file)-1))
-			}
-		}
+		faultAt = faultOffset(f, file)
 		plan.ReadErrAt, _ = faultAt, syscall.EIO
 		// one time in three the error is transient: that Read call fails, the next one succeeds
 		plan.ReadErrOnce = f.Draw(3) == 0
